@@ -1,6 +1,8 @@
 //! Engines `pint`, `huff`, `pstr`: the real `h3::qpack::{prefix_int, prefix_string}` codecs
 //! (crate-private; reached through the `hyperium_h3_verif` re-exports).  The Huffman coder is
-//! reached through `prefix_string::{encode, decode}` with the `H` flag set.
+//! reached through `prefix_string::{encode, decode}` with the `H` flag set.  `dec` reads from a contiguous
+//! cursor, `decm` from a `Buf` of several chunks (`e_c16::Chunks`): both functions are generic over `B: Buf`.
+use crate::e_c16::Chunks;
 use crate::util::*;
 use h3::qpack::verif::{
     prefix_int_decode, prefix_int_encode, prefix_string_decode, prefix_string_encode, PrefixIntError,
@@ -74,6 +76,23 @@ fn pstr_dec(n: u8, bs: &[u8]) -> String {
     })
 }
 
+/// `pint dec` on a non-contiguous `Buf` (`chunk()` is the first piece only): same answer format
+fn pint_decm(n: u8, mut buf: Chunks) -> String {
+    guarded(move || match prefix_int_decode(n, &mut buf) {
+        Ok((f, v)) => format!("ok {} {} {}", f, v, to_hex(&buf.drain())),
+        Err(PrefixIntError::Overflow) => "err Overflow".into(),
+        Err(PrefixIntError::UnexpectedEnd) => "err UnexpectedEnd".into(),
+    })
+}
+
+/// `pstr dec` on a non-contiguous `Buf`: a string payload may cross a chunk boundary
+fn pstr_decm(n: u8, mut buf: Chunks) -> String {
+    guarded(move || match prefix_string_decode(n, &mut buf) {
+        Ok(v) => format!("ok {} {}", to_hex(&v), to_hex(&buf.drain())),
+        Err(e) => pstr_err(&e),
+    })
+}
+
 /// Huffman-decode `payload` with the real decoder: a string literal with `H = 1`.
 fn huff_dec(payload: &[u8]) -> String {
     guarded(|| {
@@ -137,6 +156,15 @@ pub fn handle(w: &[&str]) -> String {
             let (Ok(n), Some(bs)) = (n.parse::<u8>(), parse_hex(h)) else { return "bad-op".into() };
             pint_dec(n, &bs)
         }
+        // decm: the input as a multi-chunk `Buf`, pieces separated by `,` (the cut positions; none empty)
+        ["pint", "decm", n, h] => {
+            let (Ok(n), Some(buf)) = (n.parse::<u8>(), Chunks::parse(h)) else { return "bad-op".into() };
+            pint_decm(n, buf)
+        }
+        ["pstr", "decm", n, h] => {
+            let (Ok(n), Some(buf)) = (n.parse::<u8>(), Chunks::parse(h)) else { return "bad-op".into() };
+            pstr_decm(n, buf)
+        }
         ["pint", "enc", n, f, v] => {
             let (Ok(n), Ok(f), Ok(v)) = (n.parse::<u8>(), f.parse::<u8>(), v.parse::<u64>()) else {
                 return "bad-op".into();
@@ -152,15 +180,23 @@ pub fn handle(w: &[&str]) -> String {
             huff_dec(&bs)
         }
         // huff decn <hex unit> <count>: a Huffman string literal made of `count` copies of the unit (inputs too long
-        // for a case line: the decoder's u32 bit positions, C06); answer: `ok len=<decoded bytes>` / `err <kind>`
+        // for a case line: the decoder's u32 bit positions, D-06u); answer: `ok len=<decoded bytes>` / `err <kind>`
+        // (`err MissingBits`, `err Unhandled`; `err BufSize` = the literal is refused for its length)
         ["huff", "decn", h, n] => {
             let (Some(unit), Ok(n)) = (parse_hex(h), n.parse::<usize>()) else { return "bad-op".into() };
-            let payload: Vec<u8> = unit.iter().cycle().take(unit.len() * n).cloned().collect();
-            let r = huff_dec(&payload);
-            match r.strip_prefix("ok ") {
-                Some(x) => format!("ok len={}", if x == "-" { 0 } else { x.len() / 2 }),
-                None => r.split(' ').take(2).collect::<Vec<_>>().join(" "),
-            }
+            guarded(|| {
+                let mut wire = Vec::with_capacity(unit.len() * n + 10);
+                prefix_int_encode(7, 1, (unit.len() * n) as u64, &mut wire);
+                wire.extend(unit.iter().cycle().take(unit.len() * n));
+                let mut c = Cursor::new(&wire[..]);
+                match prefix_string_decode(8, &mut c) {
+                    Ok(v) => format!("ok len={}", v.len()),
+                    Err(PrefixStringError::HuffmanDecoding(h)) => {
+                        huff_err(&format!("{:?}", h)).split(' ').next().map(|k| format!("err {}", k)).unwrap()
+                    }
+                    Err(e) => pstr_err(&e),
+                }
+            })
         }
         ["huff", "enc", h] => {
             let Some(s) = parse_hex(h) else { return "bad-op".into() };
